@@ -337,3 +337,53 @@ def c17_r6(ctx):
                loc=gs.loc)
     if n < 2:
         raise AnalysisError("only %d __getstate__ implementations found" % n)
+
+
+@rule("C17", "R7", "K4", "highlighting only marks terms of the field being highlighted",
+      min_instances=1,
+      clause="In whoosh/highlight.py every matched_terms() enumeration is filtered by `term[0] == fieldname` (the terms "
+             "are (fieldname, text) pairs of ALL fields of the query) and every query_terms() call passes "
+             "fieldname=<the highlighted field>: both ways of obtaining the words agree on the field.")
+def c17_r7(ctx):
+    prog = ctx.prog
+    n = 0
+    for f in prog.functions.values():
+        if f.module.name != "whoosh.highlight":
+            continue
+        if "fieldname" not in f.params:
+            continue
+        for c in norm.calls_in(f.node):
+            nm = norm.call_name(c)
+            if nm == "query_terms":
+                n += 1
+                ctx.saw(f)
+                ok = any(k.arg == "fieldname" and norm.canon(k.value) == "fieldname" for k in c.keywords)
+                ctx.ob(f, ok, "query_terms(...) is restricted to fieldname=fieldname", loc=ctx.nodeloc(f, c))
+            elif nm == "matched_terms":
+                n += 1
+                ctx.saw(f)
+                # the call is the iterable of a comprehension / loop that filters on the pair's field
+                ok = False
+                for comp in ast.walk(f.node):
+                    if isinstance(comp, (ast.GeneratorExp, ast.ListComp, ast.SetComp)):
+                        for g in comp.generators:
+                            if any(x is c for x in ast.walk(g.iter)):
+                                tg = g.target
+                                for cond in g.ifs:
+                                    t = norm.canon(cond)
+                                    if isinstance(tg, ast.Name) and t in ("(%s[0] == fieldname)" % tg.id, "(fieldname == %s[0])" % tg.id):
+                                        ok = True
+                                    if isinstance(tg, ast.Tuple) and tg.elts and isinstance(tg.elts[0], ast.Name) and \
+                                            t in ("(%s == fieldname)" % tg.elts[0].id, "(fieldname == %s)" % tg.elts[0].id):
+                                        ok = True
+                    if isinstance(comp, ast.For) and any(x is c for x in ast.walk(comp.iter)):
+                        fa = guards.Facts(f)
+                        # a loop: every use of the element's text sits under the field test (approximated: an if on the field directly in the body)
+                        for st in comp.body:
+                            if isinstance(st, ast.If) and "fieldname" in norm.canon(st.test):
+                                ok = True
+                ctx.ob(f, ok, "matched_terms() is filtered by the pair's field == fieldname",
+                       detail="terms matched in OTHER fields of the query would be marked in this field's excerpt" if not ok else "",
+                       loc=ctx.nodeloc(f, c))
+    if n < 2:
+        raise AnalysisError("only %d matched_terms/query_terms call sites in highlight.py" % n)
